@@ -130,7 +130,6 @@ R("8a54f9a3cd", "unreach", "the record was selected by rrtype == OPT and the dec
 R("2beddd22c1", "loop", "dns_routes[route] with route from 0..dns_routes.len() under the same read guard")
 R("098c27b463", "loop", "dns_routes[best_route]: an index taken from the same range under the same read guard")
 R("d0f8157fd5", "internal", "best_suffix is set together with best_route")
-R("53a3f2df90", "internal", "tlvs.len() - 1 immediately after a push")
 R("061ac92a02", "internal", "value[..p + 1] with p a position inside value (rposition), or value[..0]")
 R("94e434c019", "internal", "p + 1 with p < len(value)")
 R("75eb8593d2", "internal", "every option arm pads what it writes to a multiple of 8 octets")
